@@ -132,10 +132,25 @@ static double complex sym(const char *s, double complex z)
     exit(3);
 }
 
+static double invert_norms(int n, const double complex *a,
+	double complex *inv, double *na, double *ni);
+
 double rc_invert(int n, const double complex *a, double complex *inv)
+{
+    double na, ni;
+
+    return invert_norms(n, a, inv, &na, &ni);
+}
+
+/* inverse plus the 1-norms of the matrix and of its inverse */
+static double invert_norms(int n, const double complex *a,
+	double complex *inv, double *na, double *ni)
 {
     double complex w[RC_MAXN][2 * RC_MAXN];
     double norm_a = 0.0, norm_i = 0.0;
+
+    *na = 0.0;
+    *ni = HUGE_VAL;
 
     for (int j = 0; j < n; ++j) {
 	double s = 0.0;
@@ -201,12 +216,18 @@ double rc_invert(int n, const double complex *a, double complex *inv)
     }
     if (!isfinite(norm_i) || !isfinite(norm_a))
 	return HUGE_VAL;
+    *na = norm_a;
+    *ni = norm_i;
     return norm_a * norm_i;
 }
 
-/* condition number of a after scaling every row to unit max-abs */
+/*
+ * condition number of a after dividing row i by scale[i] (the magnitude the
+ * row's entries have when nothing cancels); scale == NULL: by the row's
+ * largest entry
+ */
 static double cond_equilibrated(int n, const double complex *a,
-	double complex *inv_out)
+	const double *scale, double complex *inv_out)
 {
     double complex s[RC_MAXN * RC_MAXN], inv[RC_MAXN * RC_MAXN];
     double c;
@@ -218,12 +239,27 @@ static double cond_equilibrated(int n, const double complex *a,
 	    if (cabs(a[i * n + j]) > mx)
 		mx = cabs(a[i * n + j]);
 	}
+	if (scale != NULL && scale[i] > mx)
+	    mx = scale[i];
 	if (!(mx > 0.0) || !isfinite(mx))
 	    return HUGE_VAL;
 	for (int j = 0; j < n; ++j)
 	    s[i * n + j] = a[i * n + j] / mx;
     }
-    c = rc_invert(n, s, inv);
+    {
+	double na, ni;
+
+	c = invert_norms(n, s, inv, &na, &ni);
+	/*
+	 * With cancellation-free row scales the scaled matrix has entries of
+	 * order one unless a row suffered cancellation; then it is the size
+	 * of the inverse that tells how close to dependent the rows are (a
+	 * plain condition number would forgive a uniformly tiny matrix,
+	 * e.g. the 1 x 1 case).
+	 */
+	if (c != HUGE_VAL && scale != NULL)
+	    c = fmax(na, 1.0) * ni;
+    }
     if (inv_out != NULL && c != HUGE_VAL)
 	(void)rc_invert(n, a, inv_out);
     return c;
@@ -237,22 +273,28 @@ int rc_state_from(const rc_rel_t *rel, const double complex *m,
     bool hv[RC_MAXN] = {0}, hi[RC_MAXN] = {0}, ha[RC_MAXN] = {0},
 	 hb[RC_MAXN] = {0};
 
+    double mdep[RC_MAXN];
+
     st->n = n;
     for (int k = 0; k < n; ++k) {
 	dep[k] = 0.0;
-	for (int j = 0; j < n; ++j)
+	mdep[k] = 0.0;
+	for (int j = 0; j < n; ++j) {
 	    dep[k] += m[k * n + j] * ind[j];
+	    mdep[k] += cabs(m[k * n + j]) * cabs(ind[j]);
+	}
     }
     for (int pass = 0; pass < 2; ++pass) {
 	for (int k = 0; k < n; ++k) {
 	    const rc_term_t *t = pass == 0 ? &rel->ind[k] : &rel->dep[k];
 	    double complex val = (pass == 0 ? ind[k] : dep[k]) * (double)t->s;
+	    double mag = pass == 0 ? cabs(ind[k]) : mdep[k];
 
 	    switch (t->q) {
-	    case 'v': st->v[t->p] = val; hv[t->p] = true; break;
-	    case 'i': st->i[t->p] = val; hi[t->p] = true; break;
-	    case 'a': st->a[t->p] = val; ha[t->p] = true; break;
-	    case 'b': st->b[t->p] = val; hb[t->p] = true; break;
+	    case 'v': st->v[t->p] = val; st->mv[t->p] = mag; hv[t->p] = true; break;
+	    case 'i': st->i[t->p] = val; st->mi[t->p] = mag; hi[t->p] = true; break;
+	    case 'a': st->a[t->p] = val; st->ma[t->p] = mag; ha[t->p] = true; break;
+	    case 'b': st->b[t->p] = val; st->mb[t->p] = mag; hb[t->p] = true; break;
 	    default: return -1;
 	    }
 	}
@@ -266,12 +308,18 @@ int rc_state_from(const rc_rel_t *rel, const double complex *m,
 	if (hv[p] && hi[p]) {
 	    st->a[p] = av * st->v[p] + ai * st->i[p];
 	    st->b[p] = bv * st->v[p] + bi * st->i[p];
+	    st->ma[p] = cabs(av) * st->mv[p] + cabs(ai) * st->mi[p];
+	    st->mb[p] = cabs(bv) * st->mv[p] + cabs(bi) * st->mi[p];
 	} else if (ha[p] && hb[p]) {
 	    /* solve  [av ai; bv bi] [v; i] = [a; b] */
 	    double complex det = av * bi - ai * bv;
 
 	    st->v[p] = (st->a[p] * bi - ai * st->b[p]) / det;
 	    st->i[p] = (av * st->b[p] - bv * st->a[p]) / det;
+	    st->mv[p] = (st->ma[p] * cabs(bi) + cabs(ai) * st->mb[p]) /
+		cabs(det);
+	    st->mi[p] = (cabs(av) * st->mb[p] + cabs(bv) * st->ma[p]) /
+		cabs(det);
 	} else {
 	    return -1;		/* relation does not determine this port */
 	}
@@ -290,6 +338,16 @@ static double complex quantity(const rc_state_t *st, const rc_term_t *t)
     default:  x = st->b[t->p]; break;
     }
     return x * (double)t->s;
+}
+
+static double magnitude(const rc_state_t *st, const rc_term_t *t)
+{
+    switch (t->q) {
+    case 'v': return st->mv[t->p];
+    case 'i': return st->mi[t->p];
+    case 'a': return st->ma[t->p];
+    default:  return st->mb[t->p];
+    }
 }
 
 void rc_tuples(const rc_rel_t *rel, const rc_state_t *st,
@@ -317,6 +375,8 @@ void rc_check(const rc_rel_t *rin, const double complex *min,
 {
     int n = rin->n;
     double complex Dm[RC_MAXN * RC_MAXN], Im[RC_MAXN * RC_MAXN];
+    double scale[RC_MAXN] = {0};
+    double dmag[RC_MAXN * RC_MAXN];
     double worst = 0.0;
 
     res->decided = false;
@@ -342,11 +402,13 @@ void rc_check(const rc_rel_t *rin, const double complex *min,
 	for (int k = 0; k < n; ++k) {
 	    Dm[k * n + j] = d[k];
 	    Im[k * n + j] = i2[k];
+	    scale[k] = fmax(scale[k], magnitude(&st, &rout->ind[k]));
+	    dmag[k * n + j] = magnitude(&st, &rout->dep[k]);
 	}
     }
     if (!all_finite(n * n, Dm) || !all_finite(n * n, Im))
 	return;
-    res->cond = cond_equilibrated(n, Im, NULL);
+    res->cond = cond_equilibrated(n, Im, scale, NULL);
     if (!(res->cond <= cond_max))
 	return;
     res->decided = true;
@@ -357,7 +419,10 @@ void rc_check(const rc_rel_t *rin, const double complex *min,
     for (int j = 0; j < n; ++j) {
 	for (int k = 0; k < n; ++k) {
 	    double complex acc = 0.0;
-	    double den = cabs(Dm[k * n + j]);
+	    /* measured against what the dependent quantity amounts to
+	     * before cancellation: an exact zero (matched port, short)
+	     * is allowed to come out as rounding noise */
+	    double den = fmax(cabs(Dm[k * n + j]), dmag[k * n + j]);
 	    double r;
 
 	    for (int m = 0; m < n; ++m) {
@@ -381,6 +446,7 @@ double rc_reference(const rc_rel_t *rin, const double complex *min,
     int n = rin->n;
     double complex Dm[RC_MAXN * RC_MAXN], Im[RC_MAXN * RC_MAXN],
 		   Iinv[RC_MAXN * RC_MAXN];
+    double scale[RC_MAXN] = {0};
     double cond;
 
     for (int j = 0; j < n; ++j) {
@@ -395,11 +461,12 @@ double rc_reference(const rc_rel_t *rin, const double complex *min,
 	for (int k = 0; k < n; ++k) {
 	    Dm[k * n + j] = d[k];
 	    Im[k * n + j] = i2[k];
+	    scale[k] = fmax(scale[k], magnitude(&st, &rout->ind[k]));
 	}
     }
     if (!all_finite(n * n, Dm) || !all_finite(n * n, Im))
 	return HUGE_VAL;
-    cond = cond_equilibrated(n, Im, Iinv);
+    cond = cond_equilibrated(n, Im, scale, Iinv);
     if (cond == HUGE_VAL)
 	return HUGE_VAL;
     for (int k = 0; k < n; ++k) {
@@ -420,6 +487,7 @@ void rc_check_zin(const rc_rel_t *rin, const double complex *min,
 {
     int n = rin->n;
     double complex A[RC_MAXN * RC_MAXN], Ainv[RC_MAXN * RC_MAXN];
+    double scale[RC_MAXN] = {0};
     double worst = 0.0;
 
     res->decided = false;
@@ -440,14 +508,18 @@ void rc_check_zin(const rc_rel_t *rin, const double complex *min,
 	    ind[k] = k == m ? 1.0 : 0.0;
 	if (rc_state_from(rin, min, ind, z0, &st) != 0)
 	    return;
-	for (int j = 0; j < n; ++j)
+	for (int j = 0; j < n; ++j) {
 	    A[j * n + m] = st.a[j];
+	    scale[j] = fmax(scale[j], st.ma[j]);
+	}
     }
     if (!all_finite(n * n, A))
 	return;
-    res->cond = cond_equilibrated(n, A, Ainv);
+    res->cond = cond_equilibrated(n, A, scale, Ainv);
     if (!(res->cond <= cond_max))
 	return;
+    int ports_decided = 0;
+
     for (int k = 0; k < n; ++k) {
 	/* drive = column k of A^-1: a_k = 1, a_j = 0 otherwise */
 	double complex ind[RC_MAXN];
@@ -462,6 +534,11 @@ void rc_check_zin(const rc_rel_t *rin, const double complex *min,
 	/* open circuit (no current): input impedance unbounded, no verdict */
 	if (!(cabs(st.i[k]) * cabs(z0[k]) >= 1e-4 * cabs(st.v[k])))
 	    return;
+	/* voltage or current that only exists as a small difference of
+	 * large terms: the reference quotient itself is inaccurate */
+	if (cabs(st.v[k]) < 1e-4 * st.mv[k] || cabs(st.i[k]) < 1e-4 * st.mi[k])
+	    continue;
+	++ports_decided;
 	ref = st.v[k] / st.i[k];
 	if (!isfinite(creal(zin[k])) || !isfinite(cimag(zin[k]))) {
 	    worst = HUGE_VAL;
@@ -471,6 +548,6 @@ void rc_check_zin(const rc_rel_t *rin, const double complex *min,
 	if (dev > worst)
 	    worst = dev;
     }
-    res->decided = true;
+    res->decided = ports_decided > 0;
     res->resid = worst;
 }
